@@ -27,7 +27,7 @@ def exhaustive(tier):
 def required(tier):
     return ["note_at_start-1", "note_at_start", "note_at_end-1", "note_at_end", "zero_length_phrase_on_note_tick", "nested",
             "touching", "equal_starts", "note_before_first_phrase", "note_after_last_phrase", ">=2_phrases_skipped_in_one_step",
-            "track_without_phrases", "concurrent_stage"]
+            "track_without_phrases", "concurrent_stage", "ticks_around_2^31..10^12"]
 
 
 def configs():
@@ -89,7 +89,9 @@ def chart_of(tracks_spec, res=192):
         tracks[f"{inst}/{diff}"] = {
             "groups": [{"tick": t, "lanes": {str(t % 5): 0}, "open": None, "forced": False, "tap": False} for t in ticks],
             "phrases": [list(p) for p in phrases]}
-    truth = {"resolution": res, "tempos": [[0, gen.usable_n(120000)], [4, gen.usable_n(150000)]], "timesigs": [[0, 4, None]], "tracks": tracks}
+    big = any(t > 10**9 for _, ticks in tracks_spec for t in ticks)
+    truth = {"resolution": res, "tempos": [[0, gen.usable_n(120000 if not big else 10**9)], [4, gen.usable_n(150000 if not big else 10**9 - 1)]],
+             "timesigs": [[0, 4, None]], "tracks": tracks}
     return gen.render_truth(truth)
 
 
@@ -138,7 +140,9 @@ def run_shard(shard, rec, tier, seed):
             specs = []
             for _ in range(rng.choice([1, 5, 40])):
                 np_ = rng.choice([0, 1, 2, 5, 12, 60]) if rng.random() < 0.97 else rng.choice([130, 300, 700])
-                base = rng.choice([0, 10, 10**6])
+                base = rng.choice([0, 10, 10**6]) if rng.random() < 0.85 else rng.choice(gen.HUGE_BASES)
+                if base > 10**9:
+                    rec.cls("ticks_around_2^31..10^12")
                 span = rng.choice([10, 40, 1000]) if np_ < 100 else 20 * np_
                 phrases = sorted([[base + rng.randint(0, span), rng.choice([0, 0, 1, 2, 3, rng.randint(0, span)])] for _ in range(np_)],
                                  key=lambda p: p[0])
